@@ -44,7 +44,7 @@ def run_item(item, survey=False):
     I = interp()
     vs, s = sym_sequence(I, N)
     I.solver.add(composition(vs, a, b))
-    rng = random.Random(N * 1009 + a * 31 + b)
+    rng = seeded_rng(N * 1009 + a * 31 + b)
     known = known_for(a, b, N)
     prelude = std_prelude(N, a, b)
     run_prelude(prelude)
